@@ -10,6 +10,19 @@ def bounded_search(p):
     if r.get("violated"): bad.append(r.get("detail"))
     rnd = random.Random(p.get("seed", 0))
     if not bad:
+        # every single-bit flip and every control character in every position of small readouts with a correct, a missing and a zero checksum
+        bases = []
+        for ident in (b"/XMX5LGBBFFB231314239", b"/KFM5KAIFA-METER", b"/ABC5\\2id x"):
+            body = ident + b"\r\n\r\n1-0:1.8.0(00006678.394*kWh)\r\n!"
+            bases += [body + b"%04X\r\n" % R.sp.crc16_arc(body), body + b"\r\n"]
+        for base in bases:
+            variants = [base[:i] + bytes([base[i] ^ (1 << k)]) + base[i + 1:] for i in range(len(base)) for k in range(8)]
+            variants += [base[:i] + bytes([c]) + base[i + 1:] for i in range(len(base)) for c in (0x00, 0x0B, 0x0C, 0x0D, 0x1C, 0x1D, 0x1E, 0x85, 0x7F)]
+            for v in variants:
+                ev += 1; b = R.check_readout(v)
+                if b: bad.append({"readout": v.decode("latin1")[:80], "broken": b[:2]}); break
+            if bad: break
+    if not bad:
         for it in range(p.get("n", 150)):
             noise = rnd.choice([b"", b"x\r\n", b"/ABC5\r\n" + b"y" * rnd.choice([10, 9000]) + b"\r\n", b"/ABC5\r\n" + b"1-0:1.8.0(1)\r\n" * 700])
             ros = list(R.gen_readouts(rnd, rnd.randrange(1, 4))); s = noise + b"".join(ros)
@@ -21,4 +34,4 @@ def bounded_search(p):
                 if g.is_valid != same.is_valid: bad.append({"why": "a readout delivered by the reader and a readout built from the same octets disagree on is_valid", "octets": g.as_bytes.decode("latin1")[:80], "reader": g.is_valid, "direct": same.is_valid}); break
                 if b: bad.append({"readout": g.as_bytes.decode("latin1")[:80], "broken": b[:2]}); break
             if bad: break
-    return {"name": "bounded search: readouts built directly and delivered by the reader", "bound": "1500 generated readouts; 150 noise + readout streams incl. over-long input x chunk sizes", "evaluations": ev + 1500, "distinct_nontrivial": ev, "violations": bad[:1]}
+    return {"name": "bounded search: readouts built directly and delivered by the reader", "bound": "1500 generated readouts; every single-bit flip / control character in every position of 6 small readouts; 150 noise + readout streams incl. over-long input x chunk sizes", "evaluations": ev + 1500, "distinct_nontrivial": ev, "violations": bad[:1]}
